@@ -25,6 +25,16 @@ def exc_class(i, is_exc):
     return table[i]
 
 
+class Awaitable:
+    """awaitable, but neither a coroutine nor a future"""
+
+    def __init__(self, coro):
+        self.coro = coro
+
+    def __await__(self):
+        return self.coro.__await__()
+
+
 class Run:
     def __init__(self, prog):
         self.prog = prog
@@ -152,9 +162,11 @@ class Run:
         elif cb["kind"] == "async":
             async def fn(*args):
                 await run.body_async(ctx, cb, len(args) > 0, *args)
-        else:   # a plain function returning an awaitable
+        else:   # a plain function returning an awaitable: a coroutine object, or (odd ids) an object that is
+                # awaitable without being a coroutine
             def fn(*args):
-                return run.body_async(ctx, cb, len(args) > 0, *args)
+                coro = run.body_async(ctx, cb, len(args) > 0, *args)
+                return Awaitable(coro) if cb["id"] % 2 else coro
         return fn
 
     # ---- the block
